@@ -26,9 +26,9 @@ cdef _debug.DebugOptions _debug_options
 
 cdef class BatchBase(futures.FutureBase):
     cdef public list items
-    cdef public int _total_time
+    cdef public long long _total_time
     cdef public int _id
-    cdef dump_perf_stats(self, int time_taken)
+    cdef dump_perf_stats(self, long long time_taken)
 
     cpdef bint is_flushed(self) except -1
     cpdef bint is_cancelled(self) except -1
@@ -50,7 +50,7 @@ cdef class BatchBase(futures.FutureBase):
 cdef class BatchItemBase(futures.FutureBase):
     cdef public BatchBase batch
     cdef public long index
-    cdef public int _total_time
+    cdef public long long _total_time
     cdef public int _id
 
     cpdef _compute(self)
